@@ -25,6 +25,8 @@ func checkC18(r *core.Run) {
 	memoryEscape(r)
 	putDoesNotRetain(r)
 	c18ReturnedEntryNotShared(r)
+	c18DecodedReplyNotPooled(r)
+	c18EmbeddedGetOwnsItsEntry(r)
 }
 
 type taintState struct {
